@@ -882,8 +882,10 @@ def _ispred(I, recv, args, kw):
 def _replace(I, recv, args, kw):
     ex = I.ex
     if len(args) == 2:
-        I.use("str.replace(a, b): z3 seq.replace_all")
-        raise Unsupported("str.replace (replace_all is undecided in both solvers)")
+        I.use("str.replace(a, b): result read as an unconstrained string (replace_all is undecided in both solvers)")
+        if ex.pure:
+            raise Unsupported("str.replace in a specification")
+        return ex.over_approximate("replaced", "str", "str.replace(a, b) read as an unconstrained string")
     raise Unsupported("str.replace with count")
 
 
